@@ -59,6 +59,16 @@ theorem inv_step {F : Type} (s : S F) (e : Ev F) (h : Inv s) : Inv (step s e) :=
     split
     · constructor <;> simp_all
     · exact ⟨h1, h2, h3, h4, h5⟩
+  | proxyStopped pid =>
+    simp only [step]
+    split
+    · constructor <;> simp_all [Mirror.step]
+    · exact ⟨h1, h2, h3, h4, h5⟩
+  | sendVia pid =>
+    simp only [step]
+    split
+    · exact ⟨h1, h2, h3, h4, h5⟩
+    · exact ⟨h1, h2, h3, h4, h5⟩
 
 theorem inv_run {F : Type} (evs : List (Ev F)) (s : S F) (h : Inv s) : Inv (run s evs) := by
   induction evs generalizing s with
@@ -73,14 +83,19 @@ structure Down {F : Type} (s : S F) : Prop where
   reader : s.readerUp = false
   mirror : s.mirror = {}
 
-theorem down_step {F : Type} (s : S F) (e : Ev F) (h : Down s) : step s e = s := by
+theorem down_step {F : Type} (s : S F) (e : Ev F) (h : Down s) :
+    Down (step s e) ∧ (step s e).accepted = s.accepted := by
   obtain ⟨h1, h2, h3, h4, h5⟩ := h
-  cases e <;> simp [step, h1, h2, h3, h4]
+  cases e <;> simp [step, h1, h2, h3, h4, h5] <;> (first | exact ⟨h1, h2, h3, h4, h5⟩ | (constructor <;> simp_all))
 
-theorem down_run {F : Type} (evs : List (Ev F)) (s : S F) (h : Down s) : run s evs = s := by
-  induction evs with
-  | nil => rfl
-  | cons e evs ih => simp only [run, List.foldl_cons, down_step s e h]; exact ih
+theorem down_run {F : Type} (evs : List (Ev F)) (s : S F) (h : Down s) :
+    Down (run s evs) ∧ (run s evs).accepted = s.accepted := by
+  induction evs generalizing s with
+  | nil => exact ⟨h, rfl⟩
+  | cons e evs ih =>
+    have h1 := down_step s e h
+    have h2 := ih (step s e) h1.1
+    exact ⟨h2.1, h2.2.trans h1.2⟩
 
 theorem settle_down {F : Type} (s : S F) (h : Inv s) (hf : s.faulted = true) : Down (settle s) := by
   obtain ⟨h1, h2, h3, h4, h5⟩ := h
@@ -111,6 +126,77 @@ theorem readerEvents_run {Msg : Type} (rs : List (Codec.FrameRes Msg)) (s : S Ms
         apply ih _ hstop
         simp only [step, hr, if_true]
         split <;> simp_all
+
+/-- the control messages a history hands to the node session -/
+def ctls {F : Type} (evs : List (Ev F)) : List Ctl :=
+  evs.filterMap fun
+    | .ctl c => if isClose c then none else some c
+    | _ => none
+
+theorem nodeUp_mono_step {F : Type} (s : S F) (e : Ev F) (h : s.nodeUp = false) : (step s e).nodeUp = false := by
+  cases e <;> simp only [step] <;> (repeat' split) <;> simp_all
+
+theorem nodeUp_mono {F : Type} (evs : List (Ev F)) (s : S F) (h : s.nodeUp = false) : (run s evs).nodeUp = false := by
+  induction evs generalizing s with
+  | nil => exact h
+  | cons e evs ih => exact ih _ (nodeUp_mono_step s e h)
+
+/-- while the node session is up its proxies and memberships are the control stream's -/
+theorem mirror_of_ctls {F : Type} (evs : List (Ev F)) (s : S F) (h : (run s evs).nodeUp = true) :
+    (run s evs).mirror = Mirror.run s.mirror (ctls evs) := by
+  induction evs generalizing s with
+  | nil => rfl
+  | cons e evs ih =>
+    have hup : (step s e).nodeUp = true := by
+      cases hc : (step s e).nodeUp with
+      | true => rfl
+      | false =>
+        have := nodeUp_mono evs _ hc
+        simp only [run, List.foldl_cons] at h
+        simp only [run] at this
+        rw [this] at h
+        exact absurd h (by simp)
+    have := ih (step s e) (by simpa [run] using h)
+    simp only [run, List.foldl_cons] at this ⊢
+    rw [this]
+    cases e with
+    | ctl c =>
+      simp only [step] at hup ⊢
+      split
+      · next hc =>
+        simp only [Bool.and_eq_true, Bool.not_eq_true'] at hc
+        simp [ctls, hc.2, Mirror.run]
+      · next hc =>
+        have hs : s.nodeUp = true := by
+          simp only [hc] at hup
+          exact hup
+        simp only [hs, Bool.true_and, Bool.not_eq_true', Bool.not_eq_false] at hc
+        simp [ctls, hc]
+    | proxyStopped pid =>
+      simp only [step] at hup ⊢
+      split
+      · next hc => rw [if_pos hc] at hup; simp at hup
+      · simp [ctls]
+    | nodeNotices =>
+      simp only [step] at hup ⊢
+      split
+      · next hc => rw [if_pos hc] at hup; simp at hup
+      · simp [ctls]
+    | sendVia pid => simp only [step]; split <;> simp [ctls]
+    | send f => simp only [step]; split <;> simp [ctls]
+    | writer w fl =>
+      simp only [step]
+      split
+      · cases w <;> cases fl <;> simp [ctls]
+      · simp [ctls]
+    | read r =>
+      simp only [step]
+      split
+      · cases r with
+        | frame f => simp only; split <;> simp [ctls]
+        | err => simp [ctls]
+      · simp [ctls]
+    | sessionStops => simp only [step]; split <;> simp [ctls]
 
 /-- the frames a reader's life hands on -/
 def oks {Msg : Type} : List (Codec.FrameRes Msg) → List Msg
